@@ -1,5 +1,6 @@
 #!/usr/bin/env python3
 
+import numbers
 import numpy as np
 
 
@@ -53,11 +54,11 @@ def spectralRepresentation( fs, time, freq, psd, freqBandwidth=None, randomSeed=
     >>> ts, amps = spectralRepresentation( fs, time, freq, psd, freqBandwidth=None )
     '''
     # edge case check for fs and time
-    if not isinstance( fs, int ) and not isinstance( fs, float ):
+    if not isinstance( fs, numbers.Real ):
         raise ValueError( "fs should be a scalar" )
     if fs <= 0:
         raise ValueError( "fs should be positive" )
-    if not isinstance( time, int ) and not isinstance( time, float ):
+    if not isinstance( time, numbers.Real ):
         raise ValueError( "time should be a scalar" )
     if time <= 0:
         raise ValueError( "time should be positive" )
@@ -91,7 +92,7 @@ def spectralRepresentation( fs, time, freq, psd, freqBandwidth=None, randomSeed=
 
     # edge case check for freqBandwidth
     if freqBandwidth is not None:
-        if not isinstance( freqBandwidth, int ) and not isinstance( freqBandwidth, float ):
+        if not isinstance( freqBandwidth, numbers.Real ):
             raise ValueError( "freqBandwidth should be a scalar" )
         if freqBandwidth <= 0:
             raise ValueError( "freqBandwidth should be positive" )
